@@ -184,13 +184,18 @@ def rand_content(r, bs, feature):
             else:
                 segs.append(("rand", r.getrandbits(48), r.choice([1, bs // 3, bs, bs + 7])))
         return segs
+    if feature == "sameblocks":
+        # k identical non-zero blocks; the pattern comes from a tiny pool so that files share blocks
+        pat = r.choice([b"\xaa", b"pattern-Q", b"\x01\x02\x03"])
+        blk = (pat * (bs // len(pat) + 1))[:bs]
+        return [("bytes", blk * r.choice([1, 2, 3, 5, 8]))] + ([("bytes", b"t" * r.randrange(1, 50))] if r.random() < 0.4 else [])
     if feature == "mixed":
         return [("rand", seed, bs), ("rep", b"xyz", bs), ("zero", bs), ("rand", seed + 1, r.randrange(1, bs))]
     raise ValueError(feature)
 
 
 CONTENT_FEATURES = ["empty", "one", "small", "small", "text", "kB-1", "kB", "kB+1", "kB-comp", "allzero",
-                    "zerotail", "zerohead", "holes", "mixed"]
+                    "zerotail", "zerohead", "holes", "mixed", "sameblocks", "sameblocks"]
 
 XATTR_PREFIXES = [b"user.", b"trusted.", b"security."]
 
